@@ -11,7 +11,7 @@ def gen_attrs_tables():
     from bs4.element import nonwhitespace_re
 
     # the pattern really used by the code (checked here, so a changed pattern is noticed at generation time
-    # and reflected in `nonwhitespacePattern`, which a theorem pins to `\S+`)
+    # and reflected in `c17NonwhitespacePattern`, which a theorem pins to `\S+`)
     pat = nonwhitespace_re.pattern
     # every code point the regex engine treats as whitespace in a str pattern
     ws = [c for c in range(sys.maxunicode + 1) if re.match(r"\s", chr(c))]
@@ -27,16 +27,35 @@ def gen_attrs_tables():
 
     t = HEADER + "namespace BS.Gen\n"
     t += f"/-- `bs4.element.nonwhitespace_re.pattern` = {pat!r} -/\n"
-    t += f"def nonwhitespacePattern : List Nat := {lean_str(pat)}\n"
+    t += f"def c17NonwhitespacePattern : List Nat := {lean_str(pat)}\n"
     t += "/-- all code points c with `re.match(r\"\\s\", chr(c))` (str pattern, Unicode) -/\n"
-    t += f"def reWhitespace : List Nat := {lean_nat_list(ws)}\n"
+    t += f"def c17ReWhitespace : List Nat := {lean_nat_list(ws)}\n"
     t += "/-- all code points c that `nonwhitespace_re` does not accept as a one-character token -/\n"
-    t += f"def notTokenChars : List Nat := {lean_nat_list(not_tok)}\n"
+    t += f"def c17NotTokenChars : List Nat := {lean_nat_list(not_tok)}\n"
     t += "/-- `HTMLParserTreeBuilder().cdata_list_attributes` (keys and sets sorted): "
     t += "; ".join(f"{k}: {' '.join(sorted(table[k]))}" for k in sorted(table)) + " -/\n"
-    t += chunked_def("defaultCdataListAttributes", "List Nat × List (List Nat)", entries, chunk=8)
+    t += chunked_def("c17DefaultCdataListAttributes", "List Nat × List (List Nat)", entries, chunk=8)
     t += "/-- `sys.get_int_max_str_digits()` (0 = no limit): `str(int)` raises ValueError beyond it -/\n"
-    t += f"def intMaxStrDigits : Nat := {sys.get_int_max_str_digits()}\n"
+    t += f"def c17IntMaxStrDigits : Nat := {sys.get_int_max_str_digits()}\n"
+    # the base TreeBuilder default (what a builder without an HTML table, e.g. an XML builder, starts from)
+    from bs4.builder import TreeBuilder
+    base = TreeBuilder.DEFAULT_CDATA_LIST_ATTRIBUTES
+    bentries = []
+    for k in sorted(base):
+        battrs = ", ".join(lean_str(a) for a in sorted(base[k]))
+        bentries.append(f"({lean_str(k)}, [{battrs}])")
+    t += "/-- `TreeBuilder.DEFAULT_CDATA_LIST_ATTRIBUTES` of the base class (used by builders that define no table) -/\n"
+    t += f"def c17BaseCdataListAttributes : List (List Nat × List (List Nat)) := [{', '.join(bentries)}]\n"
+    # every registered formatter: (is XMLFormatter, name ("None" for the None key), empty_attributes_are_booleans)
+    from bs4.formatter import HTMLFormatter, XMLFormatter
+    fm = []
+    for isx, reg in ((False, HTMLFormatter.REGISTRY), (True, XMLFormatter.REGISTRY)):
+        for name in sorted(reg, key=lambda n: "" if n is None else n):
+            f = reg[name]
+            fm.append(f"({'true' if isx else 'false'}, {lean_str('None' if name is None else name)}, "
+                      f"{'true' if f.empty_attributes_are_booleans else 'false'})")
+    t += "/-- the formatter registries: (XML registry?, name, empty_attributes_are_booleans) -/\n"
+    t += f"def c17FormatterRegistry : List (Bool × List Nat × Bool) := [{', '.join(fm)}]\n"
     t += "end BS.Gen\n"
     yield "AttrsTables.lean", t
 
@@ -52,7 +71,7 @@ def gen_lower():
         if lo != chr(c):
             items.append(f"({c}, {lean_str(lo)})")
     t = HEADER + "namespace BS.Gen\n"
-    t += chunked_def("lowerMap", "Nat × List Nat", items, chunk=64)
+    t += chunked_def("c17LowerMap", "Nat × List Nat", items, chunk=64)
     t += "end BS.Gen\n"
     yield "AttrsLower.lean", t
 
